@@ -332,7 +332,8 @@ class ParserEngine(ParserCore, CanParse):
                     # NOTE: No f'{xyz}' evaluations occurred
                     result = safe_eval(expression, context)
             except Exception as e:
-                raise FailedSemantics(
+                # NOTE: a FailedParse, so enclosing options/optionals/closures unwind their state
+                raise self.newexcept(
                     f'Error evaluating constant {literal!r}: {e}',
                 ) from e
 
